@@ -68,6 +68,15 @@ CLAIMED = {
     note='Roots are uninterpreted functions of the unpadded block (padding invariance assumed); D <= 3 quick / <= 5 thorough, N <= 9; sharded mode uses a '
          'one-device mesh (declared device count only drives padding).',
     design='§3 C13', technique='SPMD symbolic evaluation of the axis_env jaxpr to SMT, z3'),
+  'C06': dict(
+    text='(a) Path-wise symbolic execution of the REAL Python bookkeeping functions on integer proxies (every dimension, block size and merge limit symbolic in 1..B at '
+         'fixed rank; z3 decides branch feasibility and each postcondition on every path): merge_small_dims, BlockPartitioner, Preconditioner slot/shape/exponent '
+         'bookkeeping incl. INPUT/OUTPUT and compression, tearfree _blocks_metadata, reshaper _derive_shapes. (b) for every concrete shape up to the bound, the jaxprs '
+         'of partition/merge_partitions, identity preconditioning, reshaper merge/unmerge, tearfree blockify/deblockify are evaluated on tensors of distinct symbolic '
+         'entries and compared with the reference slices (solver consulted whenever terms are not literally identical). Counterexamples are replayed on arange tensors.',
+    note='Rank is a structural bound (0..3 quick, 0..4 thorough), dims <= B (5 / 8); (b) enumerates shapes (a size bound like an unwinding bound) while contents are '
+         'symbolic; Preconditioner objects in (a) are built without __init__ (its reshape needs concrete shapes).',
+    design='§3 C06', technique='forking proxy symbolic execution of Python (z3 per path) + jaxpr->SMT index-term evaluation'),
 }
 NA = {
   'C07': 'decided by tracing each configuration (abstract evaluation), no input/step/state variable is left for a solver to range over; '
